@@ -477,6 +477,26 @@ def _exact_product(v, f):
     return float(p)
 
 
+# Units that are one unit under several names BY DEFINITION (SI brochure, CGS-EMU/ESU definitions, metric
+# legacy names); their display strings differ, so the display-string alias rule does not relate them.
+SYNONYMS = {
+    "Area": [("a", "dam^2"), ("ha", "hm^2"), ("ca", "m^2")],
+    "Volume": [("L", "dm^3")],
+    "ElectricalCharge": [("statC", "Fr", "esu"), ("abC", "emu", "daC"), ("mC", "mAs")],
+    "ElectricalCurrent": [("abA", "daA")],
+    "AbsorbedDose": [("rad", "cGy")],
+    "EquivalentDose": [("rem", "cSv")],
+    "Mass": [("t", "Mg")],
+    "Pressure": [("mbar", "hPa"), ("Ba", "dPa"), ("pz", "kPa")],
+    "RadioActivity": [("Rd", "MBq")],
+    "Illuminance": [("nx", "mlx")],
+    "Energy": [("sn.m", "kJ")],
+    "Power": [("sn.m/s", "kW")],
+    "Frequency": [("Hz", "/s"), ("kHz", "/ms"), ("MHz", "/μs"), ("GHz", "/ns"), ("THz", "/ps"), ("mHz", "/ks"),
+                  ("rpm", "/min")],
+}
+
+
 def _static_checks(out, e, c, u, f):
     """description, alias, base, compound, prefix, reference relations of one declared unit."""
     cn = c.__name__
@@ -501,6 +521,18 @@ def _static_checks(out, e, c, u, f):
                 out.fail("alias-factor:%s:%s" % (cn, disp), {"cls": cn, "unit": u, "factor": f, "alias": x,
                                                              "alias_factor": c._units[x]})
                 break
+    # synonyms: different names (and display strings) of one unit by definition
+    for grp in SYNONYMS.get(cn, ()):
+        if u in grp:
+            present = [x for x in grp if x in c._units and x != u]
+            if present:
+                related = True
+                out.label("synonym")
+            for x in present:
+                if c._units[x] != f:
+                    out.fail("alias-factor:%s:synonym:%s" % (cn, "=".join(grp)),
+                             {"cls": cn, "unit": u, "factor": f, "synonym": x, "synonym_factor": c._units[x]})
+                    break
     # compound
     r = e.compound[(c, u)]
     out.label("compound=" + r[0])
@@ -830,3 +862,5 @@ def parent_checks(tier, seed):
 
 
 RULE = RULE + " " + 'Later additions: unary plus; augmented assignment += / -=.'
+RULE = RULE + (" Round 20: a table of units that are one unit under several names by definition (statC = Fr = esu, "
+               "L = dm^3, ha = hm^2, t = Mg, mbar = hPa, Hz = /s ...) extends the alias rule: their factors must be equal.")
